@@ -21,6 +21,61 @@ def gen_cases(tier, seed):
     return cases
 
 
+WOPS = ["pr1", "pr0", "pw1", "pw0", "er0", "er1", "ew0", "ew1", "d", "t"]
+
+
+def gen_wait_cases(tier, seed):
+    """sequences of readable()/writable() polls (staying suspended or abandoned), readiness changes, dispatches and re-polls"""
+    import itertools
+    rnd = random.Random(seed * 37 + 71)
+    cases = []
+    # directed: a wait that is abandoned while pending, then a wait for the other direction, then readiness for it
+    for first, second, mk in (("pw", "pr", "er1"), ("pr", "pw", "ew1")):
+        for stay1 in "01":
+            for between in ("", "d", "t", "d t"):
+                cases.append(" ".join(x for x in ["ew0", first + stay1, between, second + "1", "d", mk, "d", "t", "d"] if x))
+    if tier == "thorough":
+        for n in (1, 2, 3, 4):
+            for seq in itertools.product(WOPS, repeat=n):
+                cases.append(" ".join(seq))
+    weights = [3, 2, 3, 2, 1, 2, 2, 2, 4, 2]
+    for _ in range(700 if tier == "quick" else 20000):
+        cases.append(" ".join(rnd.choices(WOPS, weights=weights, k=rnd.randint(3, 14))))
+    return cases
+
+
+def judge_wait(case, out):
+    """on the implementation's own observations: a task suspended in a wait for d, not yet woken, must be woken by a dispatch
+    that starts with the fd ready for d"""
+    ops, obs = case.split(), out.split()
+    if out.startswith("PANIC") or len(obs) != len(ops):
+        return ["harness panic / missing observations: %s" % out[:80]]
+    kr, kw, susp, woken = False, True, None, False
+    for i, (op, ob) in enumerate(zip(ops, obs)):
+        if op[0] == "p":
+            d, stay = op[1], op[2] == "1"
+            susp = d if (ob == "P" and stay) else None
+            woken = False
+        elif op == "t":
+            if ob == "R":
+                susp = None
+            if ob != "-":
+                woken = False
+        elif op[0] == "e":
+            if op[1] == "r":
+                kr = op[2] == "1"
+            else:
+                kw = op[2] == "1"
+        elif op == "d":
+            ready = kr if susp == "r" else kw if susp == "w" else False
+            if susp and not woken and ready and ob != "w1":
+                return ["lost wake: the task is suspended in %s() (op %d), the fd is ready for it, and the dispatch did not wake it"
+                        % ("readable" if susp == "r" else "writable", i + 1)]
+            if ob == "w1":
+                woken = True
+    return []
+
+
 def main(tier, seed):
     chk = vlib.Check("C17", tier, seed)
     st = vlib.standard_front(chk)
@@ -61,6 +116,30 @@ def main(tier, seed):
         "samples": [{"case": c, "impl": o[:200], "model_replay": m} for c, o, m in list(zip(cases, impl, model))[:3]],
         "model_impl_disagreements": len(diffs),
     })
+    # ---- the wait/wake protocol in both directions, with abandoned waits
+    wcases = gen_wait_cases(tier, seed)
+    wimpl, wilog = vlib.run_impl(["asyncw"], wcases, timeout=900)
+    wmodel, wmlog = vlib.run_model(["asyncw"], wcases)
+    wbad = [(c, o, judge_wait(c, o)) for c, o in zip(wcases, wimpl)]
+    wbad = [x for x in wbad if x[2]]
+    wdiffs = [(c, o, m) for c, o, m in zip(wcases, wimpl, wmodel) if o != m]
+    chk.cov["evaluations"] += len(wcases)
+    chk.cov["traces_validated_against_impl"] += len(wcases) - len(wdiffs)
+    chk.cov["model_impl_disagreements"] += len(wdiffs)
+    chk.cov["wait_protocol"] = {"cases": len(wcases), "distinct_outputs": len(set(wimpl)),
+                                "rule": "op sequences over {poll readable/writable x stay/abandon, fd un/readable, un/writable, dispatch, re-poll when woken} on a real "
+                                        "UnixStream pair: directed abandoned-wait-then-other-direction cases, %s random sequences of 3-14 ops" % ("all sequences of length <= 4 and" if tier == "thorough" else ""),
+                                "sample": {"case": wcases[0], "impl": wimpl[0], "model": wmodel[0]}}
+    if wbad and not bad:
+        c, o, fs = min(wbad, key=lambda x: len(x[0]))
+        chk.violation("oracle-wait", "C17 violated on the real code: %s\nops: %s\n# observations: %s\n(%d failing sequences)" % (fs[0], c, o, len(wbad)))
+        return chk.finish()
+    if wdiffs and not bad:
+        c, o, m = min(wdiffs, key=lambda x: len(x[0]))
+        diffs.append(("wait-protocol " + c, " | " + o, "model: " + m))
+    if wilog or wmlog:
+        ilog = (ilog or "") + wilog
+        mlog = (mlog or "") + wmlog
     if bad:
         c, o, fs = bad[0]
         chk.violation("oracle", "C17 violated on the real code: %s\ncase (len wchunk rchunk order early_dispatch nonblocking_before end): %s\n# result: %s\n(%d failing cases)" % (fs[0], c, o[:400], len(bad)))
@@ -79,7 +158,21 @@ def main(tier, seed):
 
 def replay(path):
     cases = [l.strip() for l in open(path) if len(l.split()) == 7 and l.split()[0].isdigit()]
+    wcases = [l[5:].strip() for l in open(path) if l.startswith("ops: ")]
+    wcases += [l.strip() for l in open(path) if l.split() and all(w in WOPS for w in l.split())]
     vlib.build_harness()
+    if wcases:
+        vlib.build_model()
+        wimpl, _ = vlib.run_impl(["asyncw"], wcases)
+        wmodel, _ = vlib.run_model(["asyncw"], wcases)
+        rc = 0
+        for c, o, m in zip(wcases, wimpl, wmodel):
+            fs = judge_wait(c, o)
+            print("%s\n  impl : %s\n  model: %s\n  oracle: %s" % (c, o, m, fs or "ok"))
+            if fs or o != m:
+                rc = 1
+        if not cases:
+            return rc
     impl, _ = vlib.run_impl(["async"], cases)
     for c, o in zip(cases, impl):
         print(c, "->", o[:300])
